@@ -74,7 +74,12 @@ def qualified(h):
 
 
 def cargo_kani(root, harnesses, extra, timeout, jobs=None):
+    from . import registry
     cmd = ["prlimit", "--as=%d" % MEM_CAP, "cargo", "kani"] + KANI_FLAGS
+    if any(registry.K.get(h, {}).get("c_ffi") for h in harnesses):
+        # units whose real code closes a fabricated file descriptor: foreign functions without a body (close) return a
+        # nondeterministic value instead of ending the path as "unsupported"
+        cmd += ["-Z", "c-ffi"]
     for h in harnesses:
         cmd += ["--harness", qualified(h)]
     cmd += ["--exact"]
@@ -233,12 +238,16 @@ def run_units(tag, harnesses, per_harness_timeout, jobs=8, keep=False, modules=N
     # harnesses that reach io::Error's drop glue get the recursion bound (DESIGN F6c); the others (e.g. function-contract
     # harnesses, where an unknown --unwindset entry makes CBMC exit with status 1) run without it
     syms = {h: find_drop_glue_symbol(root, h) for h in harnesses}
-    with_sym = [h for h in harnesses if syms[h]]
-    without = [h for h in harnesses if not syms[h]]
+    from . import registry
+    ffi = [h for h in harnesses if registry.K.get(h, {}).get("c_ffi")]
+    with_sym = [h for h in harnesses if syms[h] and h not in ffi]
+    without = [h for h in harnesses if not syms[h] and h not in ffi]
     info["drop_glue_symbol"] = next((v for v in syms.values() if v), None)
     info["verify_s"] = 0.0
     cmds, logs = [], []
-    for batch, extra in ((with_sym, base + ["--cbmc-args", "--unwindset", (info["drop_glue_symbol"] or "") + ":1"]), (without, base)):
+    ffi_extra = base + (["--cbmc-args", "--unwindset", (info["drop_glue_symbol"] or "") + ":1"] if any(syms[h] for h in ffi) else [])
+    for batch, extra in ((with_sym, base + ["--cbmc-args", "--unwindset", (info["drop_glue_symbol"] or "") + ":1"]), (without, base),
+                         (ffi, ffi_extra)):
         if not batch:
             continue
         cmds.append("cargo kani " + " ".join(KANI_FLAGS) + " " + " ".join("--harness " + h for h in batch) +
